@@ -75,6 +75,13 @@ def wrap(l, r):
     return lambda s: l + str(s) + r
 
 
+def pad(d):
+    """filter factory taking a dict / set display as its argument: braces inside a filter list"""
+    if isinstance(d, (set, frozenset)):
+        d = {"l": "".join(sorted(d)), "r": "".join(sorted(d))}
+    return lambda s: d.get("l", "") + str(s) + d.get("r", "")
+
+
 class _Mod:
     @staticmethod
     def f(s):
@@ -82,9 +89,9 @@ class _Mod:
 
 
 mod = _Mod()
-USER = {"fa": fa, "fb": fb, "fc": fc, "wrap": wrap, "mod": mod}
-IMPORTS = ["from vf.props.c02 import fa, fb, fc, wrap, mod"]
-MODBLOCK = "<%! from vf.props.c02 import fa, fb, fc, wrap, mod %>"
+USER = {"fa": fa, "fb": fb, "fc": fc, "wrap": wrap, "mod": mod, "pad": pad}
+IMPORTS = ["from vf.props.c02 import fa, fb, fc, wrap, mod, pad"]
+MODBLOCK = "<%! from vf.props.c02 import fa, fb, fc, wrap, mod, pad %>"
 
 BUILTIN = {
     "h": markupsafe.escape, "x": r_x, "u": r_u, "trim": lambda s: s.strip(), "entity": r_entity,
@@ -163,6 +170,8 @@ def build_template(case):
         head += MODBLOCK
     ftxt = (case.get("sp1", " ") + "|" + case.get("sp2", " ") + case.get("sep", ", ").join(local)) if local else ""
     kw = dict(default_filters=D, buffer_filters=BF)
+    if case.get("strict"):
+        kw["strict_undefined"] = True  # every name a template uses here is defined: the outcome must not change
     if not case.get("modblock"):
         kw["imports"] = IMPORTS
     inner_expr = "${" + case.get("sp0", "") + expr + ftxt + case.get("sp3", "") + "}"
@@ -211,7 +220,7 @@ def check_case(case, ev=None):
         raise core.HarnessError("reference failed on %r: %r" % (case, e))
     ctx = {"v": case["value"], "d": {"k": case["value"], "a|b}": case["value"]}, "ident": lambda z: z}
     if case.get("ctx_filters"):
-        ctx.update({k: USER[k] for k in ("fa", "fb", "fc", "wrap", "mod")})
+        ctx.update({k: USER[k] for k in ("fa", "fb", "fc", "wrap", "mod", "pad")})
     try:
         t = Template(text, uri="/c02_%d.html" % next(_uri_counter), **kw)
         out = t.render_unicode(**ctx)
@@ -298,7 +307,8 @@ def strategies():
     expr = st.recursive(leaf, ext, max_leaves=4)
 
     filt = st.sampled_from(["h", "x", "u", "trim", "entity", "str", "unicode", "decode.utf8", "decode.latin1", "n",
-                            "fa", "fb", "fc", "mod.f", "wrap('<', '>')", "wrap('}', '|')", "wrap(\"(\", ')')", "wrap('', '')"])
+                            "fa", "fb", "fc", "mod.f", "wrap('<', '>')", "wrap('}', '|')", "wrap(\"(\", ')')", "wrap('', '')",
+                            "pad({'l': '[', 'r': ']'})", "pad({'l': '{'})", "pad({k: k.upper() for k in 'lr'})", "pad({'x', '!'})"])
     local = st.lists(filt, max_size=4)
     value = st.one_of(st.just(VALUE0), st.text(st.sampled_from(list(" <>&\"'aé|}%+/")), max_size=8))
     site = st.sampled_from(["expr", "expr", "expr", "def", "block", "anonblock", "text", "bufdef"])
@@ -307,6 +317,7 @@ def strategies():
         "site": site, "expr": expr, "local": local, "D": st.sampled_from(D_CHOICES), "P": st.sampled_from(P_CHOICES),
         "BF": st.sampled_from([[], ["fc"]]), "value": value, "ctx_filters": st.booleans(), "modblock": st.booleans(),
         "sp0": sp, "sp1": sp, "sp2": sp, "sp3": sp, "sep": st.sampled_from([",", ", ", " , "]),
+        "strict": st.sampled_from([False, False, True]),
     })
 
 
